@@ -244,6 +244,7 @@ type regexTree struct {
 	baseTree
 	regexp *regexp.Regexp // The regexp for the tree.
 	binds  []string       // The list of bind parameters.
+	groups []int          // The sub-match index of each bind parameter, nil means position plus one.
 }
 
 func (*regexTree) getMatchStyle() MatchStyle {
@@ -258,12 +259,16 @@ func (t *regexTree) getBinds() []string {
 
 func (t *regexTree) match(segment string, params Params) bool {
 	submatches := t.regexp.FindStringSubmatch(segment)
-	if len(submatches) != len(t.binds)+1 {
+	if submatches == nil {
 		return false
 	}
 
 	for i, bind := range t.binds {
-		params[bind] = submatches[i+1]
+		group := i + 1
+		if t.groups != nil {
+			group = t.groups[i]
+		}
+		params[bind] = submatches[group]
 	}
 	return true
 }
@@ -384,7 +389,7 @@ func newTree(parent Tree, s *Segment) (Tree, error) {
 	}
 
 	// The only remaining style is regex.
-	re, binds, err := constructMatchStyleRegex(s)
+	re, binds, groups, err := constructMatchStyleRegex(s)
 	if err != nil {
 		return nil, err
 	}
@@ -403,6 +408,7 @@ func newTree(parent Tree, s *Segment) (Tree, error) {
 		},
 		regexp: re,
 		binds:  binds,
+		groups: groups,
 	}, nil
 }
 
